@@ -46,6 +46,8 @@ def py_repr(e):
         return "{" + ", ".join(f"{py_repr(k)}: {py_repr(v)}" for k, v in e[1]) + "}"
     if t == "path":
         return f"PurePosixPath({bytes.fromhex(e[1]).decode()!r})"
+    if t == "ppath":
+        return f"pathlib.Path({bytes.fromhex(e[1]).decode()!r})"
     raise ValueError(t)
 
 
@@ -61,7 +63,7 @@ def is_ast_constant(e):
     return False
 
 
-TRACKED = ("int", "float", "str", "list", "dict", "path", "bool", "none")   # module variables tracked by value (bool / None since fix F18)
+TRACKED = ("int", "float", "str", "list", "dict", "path", "ppath", "bool", "none")   # module variables tracked by value (bool / None since fix F18)
 
 
 def var_is_tracked(e):
@@ -82,6 +84,12 @@ def expr_src(f, e, mod):
     if k == "var":
         return e[1]
     raise ValueError(k)
+
+
+def path_src(st):
+    """The path argument of a keep / load: a string literal, or the name of a module variable (str or pathlib.Path) that
+    the enclosing function then also reads (it is in its "reads")."""
+    return st["path_var"] if st.get("path_var") else f'"{st["path"]}"'
 
 
 def callee_ref(prog, mname, st):
@@ -112,6 +120,16 @@ def render_function(prog, mname, f):
         lines.append(f"def {f['name']}({ps}):")
         ind = "    "
     lines.append(f"{ind}_salt = {f.get('salt', 's0')!r}" + (f"  # {f['comment']}" if f.get("comment") else ""))
+    if f.get("doc") is not None:
+        # a string literal over several physical lines with '#', quotes and a backslash continuation inside:
+        # the body text is hashed as it is written
+        lines.append(f'{ind}_doc = """report')
+        lines.append(f"# {f['doc']}")
+        lines.append(f"rows: 3  # {f['doc']} 'x' \"y\" \\")
+        lines.append(f'end # {f["doc"]}"""')
+    if f.get("comp"):
+        # a comprehension: its variable is local to the comprehension, whatever the module defines under that name
+        lines.append(f"{ind}_c = [{f['comp']} * 2 for {f['comp']} in (1, 2, 3)]")
     for i, st in enumerate(f["stmts"]):
         k = st["k"]
         if k == "call":
@@ -138,7 +156,7 @@ def render_function(prog, mname, f):
             if st.get("layout") == "multi":
                 lines.append(f"{ind}x{i} = dds.keep(")
                 first = len(lines)
-                lines.append(f'{ind}    "{st["path"]}",')
+                lines.append(f'{ind}    {path_src(st)},')
                 lines.append(f"{ind}    {ref},")
                 ref_line = len(lines)
                 for a in pos + kw:
@@ -146,11 +164,11 @@ def render_function(prog, mname, f):
                 lines.append(f"{ind})")
                 info.append({"line": first, "ref_line": ref_line, "eline": len(lines)})
             else:
-                allargs = ", ".join([f'"{st["path"]}"', ref] + pos + kw)
+                allargs = ", ".join([path_src(st), ref] + pos + kw)
                 lines.append(f"{ind}x{i} = dds.keep({allargs})")
                 info.append({"line": len(lines), "ref_line": len(lines), "eline": len(lines)})
         elif k == "load":
-            lines.append(f'{ind}x{i} = dds.load("{st["path"]}")')
+            lines.append(f'{ind}x{i} = dds.load({path_src(st)})')
             info.append({"line": len(lines)})
         else:
             raise ValueError(k)
@@ -178,6 +196,8 @@ def render_function(prog, mname, f):
 def render_module(prog, mname):
     m = prog["modules"][mname]
     out = ["import dds", f"import {LOGMOD}", "from pathlib import PurePosixPath"]
+    if any(v[0] == "ppath" for v in m.get("vars", {}).values()):
+        out.append("import pathlib")
     bodies, imports = [], set()
     for f in m["funcs"]:
         lines, imps, _ = render_function(prog, mname, f)
@@ -356,6 +376,25 @@ def contains_keep(prog, mod, name, memo=None):
     return False
 
 
+COMP_VARS = ["w", "n", "item"]
+DOC_TITLES = ["Report", "Summary v1", "Weekly # totals"]
+
+
+def decorate_text(prog, rng):
+    """Text features of function bodies that do not change what runs: comments, multi-line string literals containing '#',
+    comprehensions.  Drawn from a generator of its own so that the shape of the generated programs is unchanged."""
+    for m in prog["modules"].values():
+        for f in m["funcs"]:
+            r = rng.random()
+            if r < 0.2:
+                f["doc"] = rng.choice(DOC_TITLES)
+            elif r < 0.35:
+                f["comment"] = rng.choice(["note", "TODO: check 'x' # twice"])
+            if rng.random() < 0.2:
+                f["comp"] = rng.choice(COMP_VARS)
+    return prog
+
+
 def gen_program(rng, n_funcs=None, n_mods=None, allow_loads=False, pkg="vpk", allow_classes=False):
     """allow_classes: a plain function that is not the root becomes a class with probability 0.2 (the extra random
     numbers are drawn only then: the programs generated with allow_classes=False are unchanged)."""
@@ -446,6 +485,8 @@ def gen_program(rng, n_funcs=None, n_mods=None, allow_loads=False, pkg="vpk", al
         mods[mn]["funcs"].append(f)
         funcs.append((mn, f["name"]))
     prog["root"] = funcs[-1]
+    import random as _random
+    decorate_text(prog, _random.Random(rng.random()))
     return prog
 
 
@@ -493,6 +534,15 @@ def edit_catalogue(prog, rng):
         find_func(p2, mod, name)["salt"] += "_e"
         out.append(("body", {"fn": [mod, name]}, p2))
         f = find_func(prog, mod, name)
+        if f.get("doc") is not None:
+            # only the text after a '#' inside the multi-line string literal changes
+            p2 = copy.deepcopy(prog)
+            find_func(p2, mod, name)["doc"] = f["doc"] + " (rev)"
+            out.append(("body", {"fn": [mod, name], "inside_multiline_string": True}, p2))
+        if f.get("comment"):
+            p2 = copy.deepcopy(prog)
+            find_func(p2, mod, name)["comment"] = f["comment"] + " (seen)"
+            out.append(("body", {"fn": [mod, name], "comment_only": True}, p2))
         for vn in f["reads"]:
             p2 = copy.deepcopy(prog)
             old = p2["modules"][mod]["vars"][vn]
@@ -525,6 +575,16 @@ def edit_catalogue(prog, rng):
     for m in p2["modules"].values():
         m["funcs"] = list(reversed(m["funcs"]))
     out.append(("reorder", {}, p2))
+    # a module-level variable (and a function using it) named like the variable of a comprehension in a reachable function:
+    # the comprehension does not read it
+    for (mod, name) in reach:
+        cv = find_func(prog, mod, name).get("comp")
+        if cv and cv not in prog["modules"][mod]["vars"]:
+            p2 = copy.deepcopy(prog)
+            p2["modules"][mod]["vars"][cv] = V.f_(0.5)
+            p2["modules"][mod].setdefault("post_defs", []).append(f"def weighted_{cv}(q):\n    return {cv} * q")
+            out.append(("unrelated-defs", {"mod": mod, "shadowed_by_comprehension_variable": cv}, p2))
+            break
     p2 = copy.deepcopy(prog)
     p2["ext_helpers"] = {k: v + "_e" for k, v in p2["ext_helpers"].items()}
     out.append(("non-accepted-code", {}, p2))
